@@ -22,8 +22,8 @@ ANCHOR_FILES = ["src/ropt/ensemble_evaluator/_gradient.py", "src/ropt/ensemble_e
 RULE = ("case = generated affine ensemble + configuration, run on the combined and the split path; non-trivial if gradients were reported and the conditioning "
         "premise held for every contributing realization (merged: premise of the statement after failures); distinct key = (case index, path)")
 ASSUMPTIONS = ["merged estimation is only judged when realizations are identical, or perturbations are shared and no individual perturbation of a contributing realization failed"]
-REQUIRED = {"quick": {"grad_entries_compared": 3808, "fixed_entries_zero_checked": 1500, "merged_judged": 150, "stddev_judged": 200, "with_failed_perturbations_judged": 100, "filtered_judged": 150, "with_variable_scaling_judged_candidates": 400, "small_unit_functions_judged": 300, "moved_point_functions_recomputed": 1000, "__nontrivial__": 1056},
-            "thorough": {"grad_entries_compared": 111514, "fixed_entries_zero_checked": 40000, "merged_judged": 4000, "stddev_judged": 5000, "with_failed_perturbations_judged": 3000, "filtered_judged": 4000, "with_variable_scaling_judged_candidates": 12000, "small_unit_functions_judged": 9000, "moved_point_functions_recomputed": 30000, "__nontrivial__": 30000}}
+REQUIRED = {"quick": {"grad_entries_compared": 3808, "fixed_entries_zero_checked": 1500, "merged_judged": 150, "cases_with_a_generous_magnitude_clipped_by_narrow_bounds": 60, "stddev_judged": 200, "with_failed_perturbations_judged": 100, "filtered_judged": 150, "with_variable_scaling_judged_candidates": 400, "small_unit_functions_judged": 300, "moved_point_functions_recomputed": 1000, "__nontrivial__": 1056},
+            "thorough": {"grad_entries_compared": 111514, "fixed_entries_zero_checked": 40000, "merged_judged": 4000, "cases_with_a_generous_magnitude_clipped_by_narrow_bounds": 1800, "stddev_judged": 5000, "with_failed_perturbations_judged": 3000, "filtered_judged": 4000, "with_variable_scaling_judged_candidates": 12000, "small_unit_functions_judged": 9000, "moved_point_functions_recomputed": 30000, "__nontrivial__": 30000}}
 N = {"quick": 2000, "thorough": 60000}
 RTOL = 1e-6
 
@@ -58,6 +58,18 @@ def gen_spec(rng):
         if rng.random() < 0.3:
             spec["ptypes"] = [int(rng.integers(1, 3)) for _ in range(V)]
             spec["magnitudes"] = [float(rng.uniform(0.01, 0.3)) for _ in range(V)]
+    elif V >= 2 and rng.random() < 0.15:
+        # a generous magnitude on a variable inside a narrow box that clips its perturbations: what counts is the perturbation
+        # actually made (the reported difference matrix), not the configured magnitude
+        k = int(rng.integers(V))
+        spec["magnitudes"] = [0.01] * V
+        spec["magnitudes"][k] = 10.0
+        spec["lb"] = [float(x - 5.0) for x in spec["x0"]]
+        spec["ub"] = [float(x + 5.0) for x in spec["x0"]]
+        spec["lb"][k], spec["ub"][k] = spec["x0"][k] - 0.01, spec["x0"][k] + 0.01
+        spec["btypes"] = [2] * V
+        spec["P"] = P = max(P, V + 3)
+        spec["_clipped_generous_magnitude"] = True
     if not merge and rng.random() < 0.45:
         ests = [["mean", "stddev"], ["stddev", "mean"], ["stddev"]][int(rng.integers(3))]
         spec["estimators"] = ests
@@ -335,6 +347,8 @@ def run_case(case, obs):
     n_obj, n_con = len(spec["oweights"]), spec["n_con"]
     F = n_obj + n_con
     obs.feature("merge" if spec["merge"] else "per_realization")
+    if spec.get("_clipped_generous_magnitude"):
+        obs.count("cases_with_a_generous_magnitude_clipped_by_narrow_bounds")
     obs.feature("sampler." + spec["samplers"][0]["method"])
     if spec.get("mask") is not None:
         obs.feature("mask")
